@@ -19,7 +19,7 @@ Open Scope Z_scope.
    exists, and pinning a valid schedule keeps the system satisfiable.
    Outside the fragment the property is decided by the correspondence in the direction model => implementation
    (a code change that loses schedules the model admits is reported) and refuted by known findings
-   (F09 WorkLoad over a covered window, F12 work amount of unscheduled tasks, F29, F30, F31, F23). *)
+   (F23; F09, F12, F29, F31 were found by the lost-schedule probe and repaired). *)
 Theorem C05_complete_on_fragment : forall st e,
   fragment st ->
   (forall k f, In (k, f) (spec_C01 st) -> feval e f = true) ->
